@@ -233,6 +233,14 @@ class Check(FormulaCheck):
             for j in range(n, 1, -2):
                 exp *= j
             self.expect('C17/FACTDOUBLE', finite(r) and Fr(r) == exp, n=n, got=r if not isinstance(r, int) or r < 10 ** 30 else '(big)')
+            if rnd.random() < 0.1:
+                hv = rnd.choice([1, -1]) * rnd.choice([10 ** 400, 2 ** 1024, 2 ** 1024 - 1, 10 ** 308 * 2, math.factorial(200), 3 ** 700 + 1])
+                g = self.ev('SIGN(v_h)', v_h=hv)
+                self.expect('C17/SIGN:integer-beyond-the-doubles', g == (1 if hv > 0 else -1) and type(g) is int, n='%s%d digits' % ('-' if hv < 0 else '', len(str(abs(hv)))), got=g)
+                g = self.ev('INT(v_h)', v_h=hv)
+                self.expect('C17/INT:integer-beyond-the-doubles', g == hv, n='%d digits' % len(str(abs(hv))), got='(other)' if g != hv else 'same')
+                g = self.ev('MOD(v_h,7)', v_h=hv)
+                self.expect('C17/MOD:integer-beyond-the-doubles', g == hv % 7, n='%d digits' % len(str(abs(hv))), got=g)
             a, b = rnd.randint(-10 ** 6, 10 ** 6), rnd.randint(-10 ** 6, 10 ** 6)
             if rnd.random() < 0.3:
                 # integer parts of every size a double holds exactly: up to sixteen digits (2**53), of either sign, with a non-zero last digit
